@@ -1101,7 +1101,9 @@ def epilogue_for(body):
         if kind[n] != "sink":
             ep.append("flush %s" % n)
         ep.append("rel %s" % n)
-    ep += ["rel se", "loop"]
+    # a pipe that is released may flush what it held into the next one (upipe_chunk_stream does): requests made
+    # at that moment are answered too before the last sink goes away
+    ep += ["answer", "loop", "rel se", "loop"]
     if not pumps_first:
         ep += ["pfree %s" % w for w in pumps]
     ep += ["advance 2700000000", "loop"]
